@@ -300,7 +300,7 @@ def run_c02(tier, seed):
 # ---------------------------------------------------------------------------
 
 def build_fitted(d, rng, version, n_models=5, n_ap=1, n_wav=8, n_src=3, n_f=3, sel=('N', 3), output_convolved=True, n_data_min=2, permute=True,
-                 flags_rows=None, params=None):
+                 flags_rows=None, params=None, failed_source=False):
     """Builds a package, a data file and runs the real fit(); returns a dict with everything."""
     from sedfitter import fit
     _quiet_log()
@@ -325,6 +325,11 @@ def build_fitted(d, rng, version, n_models=5, n_ap=1, n_wav=8, n_src=3, n_f=3, s
         flags = flags_rows[i] if flags_rows is not None else rng.choice((1, 1, 1, 4, 2, 3, 0, 9), size=n_f)
         s = random_source(rng, n_f, np.array(flags), placeholders=False)
         s.name = 'src_%02d' % i
+        if failed_source and i == n_src - 1 and np.any(s.valid == 1):
+            # a measurement that cannot be fitted (negative flux with flag 1): every model gets chi^2 = NaN; the record is
+            # still a record, and what is done with it later must leave the NaNs alone
+            j_ = int(np.flatnonzero(s.valid == 1)[0])
+            s.flux[j_] = -abs(float(s.flux[j_]))
         sources.append(s)
         lines.append(s.to_ascii())
     data = os.path.join(d, 'data.txt')
@@ -382,7 +387,7 @@ def c10_one(rec, case):
     with pkg.scratch() as d:
         try:
             fx = build_fitted(d, rng, c['version'], n_models=c['n_models'], n_ap=c['n_ap'], n_src=c['n_src'], n_f=c['n_f'], sel=sel,
-                              output_convolved=c['oc'], n_data_min=c['n_data_min'], flags_rows=c['flags_rows'])
+                              output_convolved=c['oc'], n_data_min=c['n_data_min'], flags_rows=c['flags_rows'], failed_source=bool(c.get('failed_source')))
         except Exception as e:
             rec.fail('fit_crash', 'fit() raised %s: %s' % (type(e).__name__, e), case)
             return False
@@ -415,6 +420,19 @@ def c10_one(rec, case):
                          and meta.extinction_law.wav.unit == fx['ext'].wav.unit and meta.extinction_law.chi.unit == fx['ext'].chi.unit
                          and np.array_equal(meta.extinction_law.wav.value, fx['ext'].wav.value) and np.array_equal(meta.extinction_law.chi.value, fx['ext'].chi.value), 'metadata',
                          'shared metadata (model dir, filters, extinction law) not read back unchanged', case)
+        # a result exactly as Fitter.fit returned it (not yet cut by any selector, NaN chi^2 of a failed fit included) is left
+        # as it was by a post-processing call
+        if eligible:
+            raw = ft.fit(Source.from_ascii(eligible[-1].to_ascii()))
+            before_raw = pickle.dumps((raw.av, raw.sc, raw.chi2, list(raw.model_name), raw.model_id, raw.model_fluxes))
+            try:
+                with pkg.quiet():
+                    write_parameters(raw, os.path.join(d, 'raw.txt'), select_format=sel)
+                    write_parameter_ranges([raw], os.path.join(d, 'raw_r.txt'), select_format=sel)
+            except Exception as e:
+                ok &= rec.fail('postprocess_crash', 'post-processing an unselected result raised %s: %s' % (type(e).__name__, e), case) or False
+            ok &= rec.expect(pickle.dumps((raw.av, raw.sc, raw.chi2, list(raw.model_name), raw.model_id, raw.model_fluxes)) == before_raw, 'inputs_unchanged',
+                             'a result passed to write_parameters / write_parameter_ranges was modified (chi2 %s)' % (np.asarray(raw.chi2)[:3],), case)
         # reading twice gives the same; three input forms are interchangeable; inputs are left unchanged
         seqs = c['calls']
         outs = {}
@@ -467,7 +485,7 @@ def run_c10(tier, seed):
             rows.append([1, 1, 1] if k == 0 else [1, 4, 2] if k == 1 else [1, 0, 9] if k == 2 else [1, 1, 3])
         rows[0] = [1, 1, 1]
         case = dict(seed=seed, tag='c10', pseed=int(rng.integers(1, 10 ** 6)), version=1 + t % 2, n_models=int(rng.integers(2, 7)), n_ap=1 if t % 3 else 3, n_src=n_src, n_f=n_f,
-                    sel=list(sels[t % len(sels)]), oc=bool(t % 2), n_data_min=1 + t % 3, flags_rows=rows, calls=[[a, list(b)] for a, b in callsets[t % len(callsets)]])
+                    sel=list(sels[t % len(sels)]), oc=bool(t % 2), n_data_min=1 + t % 3, flags_rows=rows, calls=[[a, list(b)] for a, b in callsets[t % len(callsets)]], failed_source=bool(t % 4 == 2))
         try:
             c10_one(rec, case)
         except Exception as e:
